@@ -226,6 +226,13 @@ canon_tuple!(A 0, B 1, C 2, D 3, E 4);
 canon_tuple!(A 0, B 1, C 2, D 3, E 4, F 5);
 canon_tuple!(A 0, B 1, C 2, D 3, E 4, F 5, G 6);
 canon_tuple!(A 0, B 1, C 2, D 3, E 4, F 5, G 6, H 7);
+canon_tuple!(A 0, B 1, C 2, D 3, E 4, F 5, G 6, H 7, I 8);
+canon_tuple!(A 0, B 1, C 2, D 3, E 4, F 5, G 6, H 7, I 8, J 9);
+canon_tuple!(A 0, B 1, C 2, D 3, E 4, F 5, G 6, H 7, I 8, J 9, K 10);
+canon_tuple!(A 0, B 1, C 2, D 3, E 4, F 5, G 6, H 7, I 8, J 9, K 10, L 11);
+canon_tuple!(A 0, B 1, C 2, D 3, E 4, F 5, G 6, H 7, I 8, J 9, K 10, L 11, M 12);
+canon_tuple!(A 0, B 1, C 2, D 3, E 4, F 5, G 6, H 7, I 8, J 9, K 10, L 11, M 12, N 13);
+canon_tuple!(A 0, B 1, C 2, D 3, E 4, F 5, G 6, H 7, I 8, J 9, K 10, L 11, M 12, N 13, O 14);
 canon_tuple!(A 0, B 1, C 2, D 3, E 4, F 5, G 6, H 7, I 8, J 9, K 10, L 11, M 12, N 13, O 14, Q 15);
 
 use core::ops::*;
